@@ -29,11 +29,14 @@ abbrev Str := List Char
 /-- a `Term`: the `expr`s of its factors in the term's own order (`Term.factors`) -/
 abbrev Term := List Str
 
-inductive PyErr | keyError | valueError | factorEncodingError
+inductive PyErr | keyError | valueError | factorEncodingError | typeError | indexError | attributeError
+  | runtimeError
 deriving DecidableEq, Repr
 
 def PyErr.name : PyErr → String
   | .keyError => "KeyError" | .valueError => "ValueError" | .factorEncodingError => "FactorEncodingError"
+  | .typeError => "TypeError" | .indexError => "IndexError" | .attributeError => "AttributeError"
+  | .runtimeError => "RuntimeError"
 
 /-! ## strings: order, `sorted`, `":".join`, `repr` -/
 
@@ -66,6 +69,10 @@ def termRepr (t : Term) : Str := joinColon (t.map factorRepr)
 
 /-- the string whose `hash()` is `Term.__hash__` (`":".join(self._factor_key)`) -/
 def termHash (t : Term) : Str := joinColon (sortStrs t)
+
+/-- the regular expression (pattern text, flags 0) that `matchFactors` below is a model of; compared
+with the live `Term.FACTOR_MATCHER` on every run (`Gen/SpecMetaTable.lean`, `Props.C10.tables_live`) -/
+def factorMatcherPattern : String := "(?:^|(?<=:))(`?)(?P<factor>[^`]+?)\\1(?=:|$)"
 
 /-! ## `Term.FACTOR_MATCHER = (?:^|(?<=:))(`?)(?P<factor>[^`]+?)\1(?=:|$)` with `finditer` -/
 
@@ -182,6 +189,13 @@ def getPlain (d : TDict α) (k : Key) : Except PyErr α :=
   | some v => .ok v
   | none => .error .keyError
 
+/-- `_TermMapping.get(key)` (default `None`): `self[key]`, a `KeyError` becomes the default -/
+def getDefault (d : TDict α) (k : Key) : Except PyErr (Option α) :=
+  match d.get k with
+  | .ok v => .ok (some v)
+  | .error .keyError => .ok none
+  | .error e => .error e
+
 end TDict
 
 /-- insertion-ordered dict keyed by `str` -/
@@ -218,11 +232,39 @@ def sortNats (xs : List Nat) : List Nat := xs.foldr insertNat []
 
 /-! ## the recorded structure and what `ModelSpec` derives from it -/
 
-/-- one `EncodedTermStructure`; `svars` holds, per scoped term and per scoped factor, the names
-of `factor.factor.variables` (`None` is forwarded as the empty list: it is skipped by the code) -/
+/-- a `Variable` (`formulaic/utils/variables.py`): a `str` subclass — it hashes and compares as its
+name — that carries `roles` (a subset of {value, callable}) and `source` (the layer the name
+resolved in, `None` when unknown) -/
+structure Var where
+  name : Str
+  value : Bool
+  callable : Bool
+  source : Option Str
+deriving Repr, DecidableEq
+
+/-- one step of `Variable.union`: `variables[v] = Variable(v, roles = v.roles | old.roles,
+source = v.source)` when the name is present (the key keeps its position), else `variables[v] = v` -/
+def addVar : List Var → Var → List Var
+  | [], v => [v]
+  | w :: rest, v =>
+    if w.name == v.name then
+      { name := v.name, value := v.value || w.value, callable := v.callable || w.callable, source := v.source } :: rest
+    else w :: addVar rest v
+
+/-- `Variable.union(*variable_sets)` (the values of the dict, in first-insertion order) -/
+def unionVars (sets : List (List Var)) : List Var := sets.foldl (fun acc s => s.foldl addVar acc) []
+
+/-- one `ScopedFactor` of a recorded scoped term: the expression of its factor and
+`EvaluatedFactor.variables` (`None` for a literal factor) -/
+structure SFactor where
+  expr : Str
+  vars : Option (List Var)
+deriving Repr, DecidableEq
+
+/-- one `EncodedTermStructure(term, scoped_terms, columns)` -/
 structure Row where
   term : Term
-  svars : List (List (List Str))
+  sterms : List (List SFactor)
   columns : List Str
 deriving Repr, DecidableEq
 
@@ -260,13 +302,21 @@ def sliceOf : List Nat → Nat × Nat
 /-- `ModelSpec.term_slices` -/
 def termSlices (st : Structure) : TDict (Nat × Nat) := (termIndices st).map (fun e => (e.1, sliceOf e.2))
 
-/-- `ScopedTerm.variables` / `Variable.union` (names only) -/
-def scopedVars (sc : List (List Str)) : List Str := unionStrs sc
-def rowVars (r : Row) : List Str := unionStrs (r.svars.map scopedVars)
+/-- `ScopedTerm.variables`: `Variable.union(*(f.factor.variables for f in factors if f.factor.variables is not None))` -/
+def scopedVarsFull (sc : List SFactor) : List Var := unionVars (sc.filterMap (·.vars))
+/-- `Variable.union(*(term.variables for term in row[1]))` -/
+def rowVarsFull (r : Row) : List Var := unionVars (r.sterms.map scopedVarsFull)
+/-- the names of a row's variables -/
+def rowVars (r : Row) : List Str := (rowVarsFull r).map (·.name)
 
-/-- `ModelSpec.term_variables` -/
+/-- `ModelSpec.term_variables` (with roles and sources) -/
+def termVariablesFull (st : Structure) : TDict (List Var) :=
+  st.foldl (fun d r => d.insert r.term (rowVarsFull r)) []
+
+/-- `ModelSpec.term_variables`, names only (a `Variable` is its name as far as keys, membership and
+equality are concerned) -/
 def termVariables (st : Structure) : TDict (List Str) :=
-  st.foldl (fun d r => d.insert r.term (rowVars r)) []
+  (termVariablesFull st).map (fun e => (e.1, e.2.map (·.name)))
 
 def addVarTerm : SDict (List Term) → Str → Term → SDict (List Term)
   | [], v, t => [(v, [t])]
@@ -291,15 +341,95 @@ def getVariableIndices (st : Structure) (vars : List Str) : Except PyErr (List N
     | none => .error .keyError)
   pure parts.flatten
 
-/-- what `get_slice` accepts (a `slice` is returned unchanged and is not modelled) -/
+/-! ## the factor side: `term_factors`, `factors`, `factor_terms`, `factor_variables`,
+`factor_contrasts`; `variables`, `variables_by_source`, `required_variables`
+
+A `Factor` hashes and compares as its `expr`, so a set of factors is a duplicate-free list of
+expressions. These maps are derived from `self.terms = list(self.formula)` (NOT from the
+structure), `factor_variables` from both. -/
+
+/-- `Term.__init__`: `factors = tuple(dict.fromkeys(factors))` -/
+def mkTerm (exprs : List Str) : Term := exprs.foldl addStr []
+
+/-- `term_factors[term].add(factor)` on a `defaultdict(set)` keyed by `Term` -/
+def addTermFactor : TDict (List Str) → Term → Str → TDict (List Str)
+  | [], t, f => [(t, [f])]
+  | (k, fs) :: rest, t, f =>
+    if keyMatches k (.term t) then (k, addStr fs f) :: rest else (k, fs) :: addTermFactor rest t f
+
+/-- `ModelSpec.term_factors` -/
+def termFactors (formulaTerms : List Term) : TDict (List Str) :=
+  formulaTerms.foldl (fun d t => t.foldl (fun d f => addTermFactor d t f) d) []
+
+/-- `ModelSpec.factors = {factor for term in self.terms for factor in term.factors}` -/
+def factors (formulaTerms : List Term) : List Str :=
+  formulaTerms.foldl (fun s t => t.foldl addStr s) []
+
+/-- `ModelSpec.factor_terms`: the reverse of `term_factors` (`defaultdict(set)` keyed by `Factor`) -/
+def factorTerms (formulaTerms : List Term) : SDict (List Term) :=
+  (termFactors formulaTerms).foldl (fun d e => e.2.foldl (fun d f => addVarTerm d f e.1) d) []
+
+/-- `factor_variables[factor].extend(vars)` on a `defaultdict(list)` keyed by `Factor` -/
+def extendAt : SDict (List Var) → Str → List Var → SDict (List Var)
+  | [], f, vs => [(f, vs)]
+  | (k, ws) :: rest, f, vs => if k == f then (k, ws ++ vs) :: rest else (k, ws) :: extendAt rest f vs
+
+/-- the loop of `ModelSpec.factor_variables`: `.extend(scoped_factor.factor.variables)` raises
+`TypeError` when the recorded variables are `None` -/
+def factorVarLists (st : Structure) : Except PyErr (SDict (List Var)) :=
+  st.foldlM (fun d r => r.sterms.foldlM (fun d sc => sc.foldlM (fun d sf =>
+    match sf.vars with
+    | some vs => .ok (extendAt d sf.expr vs)
+    | none => .error .typeError) d) d) []
+
+/-- `ModelSpec.factor_variables = {factor: Variable.union(factor_variables.get(factor, [])) for factor in self.factors}` -/
+def factorVariables (formulaTerms : List Term) (st : Structure) : Except PyErr (SDict (List Var)) := do
+  let fv ← factorVarLists st
+  pure ((factors formulaTerms).map (fun f =>
+    (f, unionVars [match fv.lookup f with | some vs => vs | none => []])))
+
+/-- what `factor_contrasts` reads of `encoder_state[expr]`: is the recorded kind categorical, does
+the recorded state hold a `"contrasts"` entry -/
+structure EncEntry where
+  expr : Str
+  categorical : Bool
+  hasContrasts : Bool
+deriving Repr, DecidableEq
+
+/-- the keys of `ModelSpec.factor_contrasts` (the contrast states themselves are C11's) -/
+def factorContrastKeys (formulaTerms : List Term) (enc : List EncEntry) : List Str :=
+  (factors formulaTerms).filter (fun f =>
+    match enc.find? (fun e => e.expr == f) with
+    | some e => e.categorical && e.hasContrasts
+    | none => false)
+
+/-- `ModelSpec.variables = Variable.union(*term_variables.values())` -/
+def variables (st : Structure) : List Var := unionVars ((termVariablesFull st).map (·.2))
+
+/-- `variables_by_source[variable.source].add(variable)` on a `defaultdict(set)` -/
+def addBySource : List (Option Str × List Str) → Option Str → Str → List (Option Str × List Str)
+  | [], src, v => [(src, [v])]
+  | (k, vs) :: rest, src, v => if k == src then (k, addStr vs v) :: rest else (k, vs) :: addBySource rest src v
+
+/-- `ModelSpec.variables_by_source` -/
+def variablesBySource (st : Structure) : List (Option Str × List Str) :=
+  (variables st).foldl (fun d v => addBySource d v.source v.name) []
+
+/-- `ModelSpec.required_variables` on a materialized spec: `variables_by_source.get("data", set())` -/
+def requiredVariables (st : Structure) : List Str :=
+  match (variablesBySource st).find? (fun e => e.1 == some "data".toList) with
+  | some e => e.2
+  | none => []
+
+/-! ## `get_slice` -/
+
+/-- what `get_slice` looks up in the term and column maps -/
 inductive Ident
-  | int (i : Nat)
   | term (t : Term)
   | str (s : Str)
 
-/-- `ModelSpec.get_slice` -/
+/-- `ModelSpec.get_slice` for a `Term` or a string -/
 def getSlice (st : Structure) : Ident → Except PyErr (Nat × Nat)
-  | .int i => .ok (i, i + 1)
   | .term t =>
     if (termSlices st).contains (.term t) then (termSlices st).get (.term t) else .error .valueError
   | .str s =>
@@ -307,6 +437,91 @@ def getSlice (st : Structure) : Ident → Except PyErr (Nat × Nat)
     else match (columnIndices st).lookup s with
       | some i => .ok (i, i + 1)
       | none => .error .valueError
+
+/-- a Python `slice(start, stop, step)` -/
+structure PySlice where
+  start : Option Int
+  stop : Option Int
+  step : Option Int
+deriving Repr, DecidableEq
+
+/-- everything `get_slice` can be called with -/
+inductive AnyIdent
+  | slice (s : PySlice)
+  | int (i : Int)                -- `bool` included (`isinstance(True, int)`)
+  | term (t : Term)
+  | str (s : Str)
+  | other                        -- any other hashable object (`None`, a float, a tuple, a numpy integer …)
+  | unhashable                   -- a list, a dict, a set …
+
+def PySlice.ofNats (p : Nat × Nat) : PySlice := ⟨some p.1, some p.2, none⟩
+
+/-- `ModelSpec.get_slice(columns_identifier)`, every branch: a slice is returned as it is; an int `i`
+gives `slice(i, i + 1)` (no range check, negative values included); a `Term` / a string go through the
+term and column maps; any other hashable object is in neither map (`Term.__eq__` returns
+`NotImplemented` for it, the column map is keyed by strings) → `ValueError`; an unhashable object
+fails in `dict.__contains__` → `TypeError` -/
+def getSliceAny (st : Structure) : AnyIdent → Except PyErr PySlice
+  | .slice s => .ok s
+  | .int i => .ok ⟨some i, some (i + 1), none⟩
+  | .term t => (getSlice st (.term t)).map PySlice.ofNats
+  | .str s => (getSlice st (.str s)).map PySlice.ofNats
+  | .other => .error .valueError
+  | .unhashable => .error .typeError
+
+/-! ## ordering of a term list (`SimpleFormula._reorder`) -/
+
+inductive Ordering | none | degree | sort
+deriving DecidableEq, Repr
+
+/-- a term of a request with, per factor, whether its `eval_method` is `LITERAL` -/
+structure ReqTerm where
+  term : Term
+  literal : List Bool
+deriving Repr, DecidableEq
+
+/-- `Term.degree`: the number of factors that are not literals -/
+def ReqTerm.degree (t : ReqTerm) : Nat := (t.literal.filter (fun b => !b)).length
+
+/-- stable insertion by degree of an element that stood BEFORE the (sorted) list: it goes in front
+of the first element whose degree is not smaller -/
+def insertByDegree (x : ReqTerm) : List ReqTerm → List ReqTerm
+  | [] => [x]
+  | y :: ys => if y.degree < x.degree then y :: insertByDegree x ys else x :: y :: ys
+
+/-- `sorted(terms, key=lambda term: term.degree)` (stable) -/
+def sortByDegree (ts : List ReqTerm) : List ReqTerm := ts.foldr insertByDegree []
+
+/-- lexicographic `<` on lists of strings (`sorted(self.factors) < sorted(other.factors)`) -/
+def strsLt : List Str → List Str → Bool
+  | [], [] => false
+  | [], _ :: _ => true
+  | _ :: _, [] => false
+  | a :: as, b :: bs => if strLt a b then true else if strLt b a then false else strsLt as bs
+
+/-- `Term.__lt__` -/
+def termLt (x y : ReqTerm) : Bool :=
+  if x.degree == y.degree then strsLt (sortStrs x.term) (sortStrs y.term)
+  else x.degree < y.degree
+
+def insertByTermLt (x : ReqTerm) : List ReqTerm → List ReqTerm
+  | [] => [x]
+  | y :: ys => if termLt y x then y :: insertByTermLt x ys else x :: y :: ys
+
+/-- the factors of a request term with their literal flags, sorted by expression
+(`Term(factors=sorted(term.factors))`) -/
+def insertFactor (x : Str × Bool) : List (Str × Bool) → List (Str × Bool)
+  | [] => [x]
+  | y :: ys => if strLt x.1 y.1 then x :: y :: ys else y :: insertFactor x ys
+def ReqTerm.sortFactors (t : ReqTerm) : ReqTerm :=
+  let fs := (t.term.zip t.literal).foldr insertFactor []
+  ⟨fs.map (·.1), fs.map (·.2)⟩
+
+/-- `SimpleFormula(terms, _ordering=ordering)` -/
+def orderTerms : Ordering → List ReqTerm → List ReqTerm
+  | .none, ts => ts
+  | .degree, ts => sortByDegree ts
+  | .sort, ts => (ts.map ReqTerm.sortFactors).foldr insertByTermLt []
 
 /-- `ModelSpec.__get_restricted_formula` after parsing: `set(formula).difference(self.terms)`
 must be empty. `formulaTerms` = `list(self.formula)`, `spec` = the parsed `terms_spec`. -/
@@ -330,6 +545,95 @@ def subset (formulaTerms : List Term) (st : Structure) (spec : List Term) : Exce
     if termsSet.any (fun u => keyMatches u (.term s.term)) then d.insert s.term s else d) []
   terms.mapM (fun t => ts.getPlain (.term t))
 
+/-- what `SimpleFormula.from_spec(terms_spec, **formula_kwargs)` makes of a `terms_spec` up to the
+ordering step: a structured formula; a `SimpleFormula` instance (returned as it is); or a flat list
+of terms (a formula string or a list of strings / `Term`s after parsing, C01) that
+`SimpleFormula(terms, _ordering=…)` still has to order -/
+inductive ParsedSpec
+  | structured
+  | formula (ts : List Term)
+  | terms (ts : List ReqTerm)
+
+/-- the term list of the restricted formula before the membership check -/
+def specTerms (o : Ordering) : ParsedSpec → Except PyErr (List Term)
+  | .structured => .error .valueError
+  | .formula ts => .ok ts
+  | .terms ts => .ok ((orderTerms o ts).map (·.term))
+
+/-- `ModelSpec.subset(terms_spec, ordering=o)` -/
+def subsetSpec (formulaTerms : List Term) (st : Structure) (o : Ordering) (p : ParsedSpec) :
+    Except PyErr Structure := do
+  let spec ← specTerms o p
+  subset formulaTerms st spec
+
+/-- `ModelSpec.get_term_indices(terms_spec, ordering=o)` -/
+def getTermIndicesSpec (formulaTerms : List Term) (st : Structure) (o : Ordering) (p : ParsedSpec) :
+    Except PyErr (List Nat) := do
+  let spec ← specTerms o p
+  getTermIndices formulaTerms st spec
+
+/-! ## a `ModelSpec` whose structure may not be populated -/
+
+/-- the fields of a `ModelSpec` that the derived metadata reads -/
+structure Spec where
+  formula : List Term
+  structure? : Option Structure
+  enc : List EncEntry
+
+instance : Inhabited Spec := ⟨⟨[], none, []⟩⟩
+
+/-- `ModelSpec.__structure`: `RuntimeError` when `.structure is None` -/
+def Spec.st (sp : Spec) : Except PyErr Structure :=
+  match sp.structure? with
+  | some st => .ok st
+  | none => .error .runtimeError
+
+/-- a derived attribute that reads the structure -/
+def Spec.attr {α : Type} (sp : Spec) (f : Structure → α) : Except PyErr α := sp.st.map f
+
+/-- `ModelSpec.get_column_indices(columns)`: `self.column_indices` is read once per name (an empty
+request never reads the structure) -/
+def Spec.getColumnIndices (sp : Spec) : List Str → Except PyErr (List Nat)
+  | [] => .ok []
+  | cols => do
+    let st ← sp.st
+    SpecMeta.getColumnIndices st cols
+
+/-- `ModelSpec.get_slice` on a spec whose structure may not be populated: a slice and an int are
+answered before `self.term_slices` is read -/
+def Spec.getSlice (sp : Spec) : AnyIdent → Except PyErr PySlice
+  | .slice s => .ok s
+  | .int i => .ok ⟨some i, some (i + 1), none⟩
+  | k => do
+    let st ← sp.st
+    getSliceAny st k
+
+/-- `ModelSpec.get_term_indices(terms_spec, ordering=o)`: the restricted formula first; the structure
+is read (`self.term_indices`) only when there is a term to look up -/
+def Spec.getTermIndices (sp : Spec) (o : Ordering) (p : ParsedSpec) : Except PyErr (List Nat) := do
+  let spec ← specTerms o p
+  let terms ← restricted sp.formula spec
+  match terms with
+  | [] => pure []
+  | _ => do
+    let st ← sp.st
+    SpecMeta.getTermIndices sp.formula st spec
+
+/-- `own_terms = {term: term for term in self.terms}`: the spec's own `Term` object for every term
+(a repeated term keeps the last object) -/
+def ownTerms (formulaTerms : List Term) : TDict Term := formulaTerms.foldl (fun d t => d.insert t t) []
+
+/-- `ModelSpec.subset` as a spec-to-spec function:
+`self.update(formula=SimpleFormula([own_terms[t] for t in terms]), structure=[term_structure[t] for t in terms])`
+— the subset's formula consists of the parent's OWN terms (own factor order), in the requested order -/
+def Spec.subset (sp : Spec) (o : Ordering) (p : ParsedSpec) : Except PyErr Spec := do
+  let spec ← specTerms o p
+  let _ ← restricted sp.formula spec
+  let st ← sp.st
+  let sub ← SpecMeta.subset sp.formula st spec
+  let own ← spec.mapM (fun t => (ownTerms sp.formula).getPlain (.term t))
+  pure { formula := own, structure? := some sub, enc := sp.enc }
+
 /-! ## which labels the matrix carries (`_combine_columns`) and the replay of a structure -/
 
 inductive Materializer | pandas | narwhals
@@ -342,6 +646,18 @@ deriving DecidableEq, Repr
 name-keyed dict (`narwhals.from_dict({name: col …})`) -/
 inductive Combine | list | dict
 deriving DecidableEq, Repr
+
+/-- the registered names (`REGISTER_NAME`, `REGISTER_OUTPUTS`) -/
+def Materializer.ofName : String → Option Materializer
+  | "pandas" => some .pandas
+  | "narwhals" => some .narwhals
+  | _ => none
+def Output.ofName : String → Option Output
+  | "pandas" => some .pandas
+  | "numpy" => some .numpy
+  | "sparse" => some .sparse
+  | "narwhals" => some .narwhals
+  | _ => none
 
 def combineMode : Materializer → Output → Combine
   | .pandas, _ => .list
